@@ -44,6 +44,7 @@ func init() {
 			{ID: "C10.21", Desc: "the origin's error response is closed when the stored one is served instead (no connection is left checked out)", Run: func(c *Ctx) { ruleSIEClosesOriginBody(c, "C10.21") }, MinSites: 1},
 			{ID: "C10.22", Desc: "an entry whose recorded times cannot be read is unreadable", Run: func(c *Ctx) { ruleMetaTimesChecked(c, "C10.22") }, MinSites: 1},
 			{ID: "C10.23", Desc: "fields are set only on request headers that cannot be nil", Run: func(c *Ctx) { ruleRequestHeaderWritesNonNil(c, "C10.23") }, MinSites: 1},
+			{ID: "C10.24", Desc: "no nil dereference when the origin's response has no Body (closes are nil-guarded)", Run: func(c *Ctx) { ruleUpstreamBodyCloseGuarded(c, "C10.24") }, MinSites: 1},
 		},
 	})
 }
@@ -376,8 +377,8 @@ func ruleC10_3(c *Ctx) {
 				scan(mc.Fn.(*ssa.Function))
 			}
 			for _, op := range in.Operands(nil) {
-				if af, ok := (*op).(*ssa.Function); ok && af.Parent() != nil {
-					scan(af) // a closure without captured variables is a plain function value
+				if af, ok := (*op).(*ssa.Function); ok {
+					scan(af) // a function value handed on: a closure without captured variables, or a named predicate
 				}
 			}
 			if ci, ok := in.(ssa.CallInstruction); ok {
